@@ -29,12 +29,29 @@ func NewHub() *Hub {
 	return h
 }
 
-// Go runs f as an endpoint goroutine known to the hub.
+// GoAll registers all endpoint functions first and only then starts them, so that an endpoint
+// which blocks immediately cannot look like "everybody is stuck" while its peer is not yet counted.
+func (h *Hub) GoAll(fs ...func()) []chan struct{} {
+	h.mu.Lock()
+	h.live += len(fs)
+	h.mu.Unlock()
+	var out []chan struct{}
+	for _, f := range fs {
+		out = append(out, h.start(f))
+	}
+	return out
+}
+
+// Go runs f as an endpoint goroutine known to the hub (call it from a running endpoint, e.g. for a writer).
 func (h *Hub) Go(f func()) (done chan struct{}) {
-	done = make(chan struct{})
 	h.mu.Lock()
 	h.live++
 	h.mu.Unlock()
+	return h.start(f)
+}
+
+func (h *Hub) start(f func()) (done chan struct{}) {
+	done = make(chan struct{})
 	go func() {
 		defer func() {
 			h.mu.Lock()
